@@ -202,6 +202,61 @@ func cStackWrites(c *ctx, d *cdrv) error {
 		ui := uint64(1)
 		nops := 3 + c.rng.Intn(12)
 		var hops, cops []string
+		// a shadow Go stack runs the same operations with name checking on: it tells which
+		// transactions are refused (a refused one does not consume an update index)
+		shdir := filepath.Join(c.work, fmt.Sprintf("cs%d-shadow", i))
+		os.MkdirAll(shdir, 0755)
+		shcfg := cfg.cfg()
+		shadow, err := reftable.NewStack(shdir, shcfg)
+		if err != nil {
+			return err
+		}
+		reftable.VerifSetAutoCompact(shadow, false)
+		applyShadow := func(o hop) bool {
+			switch o.kind {
+			case "A":
+				return shadow.Add(func(w *reftable.Writer) error {
+					w.SetLimits(ui, ui)
+					for k := range o.refs {
+						r := o.refs[k]
+						if err := w.AddRef(&r); err != nil {
+							return err
+						}
+					}
+					for k := range o.logs {
+						l := o.logs[k]
+						if err := w.AddLog(&l); err != nil {
+							return err
+						}
+					}
+					return nil
+				}) == nil
+			case "M":
+				tr, err := shadow.NewAddition()
+				if err != nil {
+					return false
+				}
+				defer tr.Close()
+				for t := range o.multi {
+					rs := o.multi[t]
+					u := ui + uint64(t)
+					if err := tr.Add(func(w *reftable.Writer) error {
+						w.SetLimits(u, u)
+						for k := range rs {
+							r := rs[k]
+							if err := w.AddRef(&r); err != nil {
+								return err
+							}
+						}
+						return nil
+					}); err != nil {
+						return false
+					}
+				}
+				return tr.Commit() == nil
+			}
+			return true
+		}
 		for j := 0; j < nops; j++ {
 			if j > 1 && c.rng.Intn(6) == 0 {
 				hops = append(hops, "CA")
@@ -221,6 +276,44 @@ func cStackWrites(c *ctx, d *cdrv) error {
 				cops = append(cops, fmt.Sprintf("CE~%d~%d", tm, mn))
 				// entries that expired can no longer be deleted "as existing"; keep the bookkeeping simple
 				liveLogs = nil
+				continue
+			}
+			if j > 0 && c.rng.Intn(6) == 0 {
+				// a multi-table addition through the C API: 2..3 tables at consecutive update indices
+				var o hop
+				o.kind = "M"
+				nt := 2 + c.rng.Intn(2)
+				var cparts []string
+				for t := 0; t < nt; t++ {
+					pick := map[string]bool{}
+					for k := 0; k < 1+c.rng.Intn(2); k++ {
+						pick[pool[c.rng.Intn(len(pool))]] = true
+					}
+					var nm []string
+					for k := range pick {
+						nm = append(nm, k)
+					}
+					sort.Strings(nm)
+					var rs []reftable.RefRecord
+					for _, k := range nm {
+						rec := reftable.RefRecord{RefName: k, UpdateIndex: ui + uint64(t)}
+						switch c.rng.Intn(5) {
+						case 0, 1:
+						case 2:
+							rec.Target = pool[c.rng.Intn(len(pool))]
+						default:
+							rec.Value = oids[c.rng.Intn(3)]
+						}
+						rs = append(rs, rec)
+					}
+					o.multi = append(o.multi, rs)
+					cparts = append(cparts, fmtRefs(rs))
+				}
+				hops = append(hops, o.String())
+				cops = append(cops, "M~"+strings.Join(cparts, "%"))
+				if applyShadow(o) {
+					ui += uint64(nt)
+				}
 				continue
 			}
 			var o hop
@@ -292,8 +385,21 @@ func cStackWrites(c *ctx, d *cdrv) error {
 			}
 			hops = append(hops, o.String())
 			cops = append(cops, "A~"+orDash(fmtRefs(o.refs))+"~"+orDash(fmtLogs(o.logs)))
-			ui++
+			if applyShadow(o) {
+				ui++
+			} else {
+				// refused: its reflog entries do not exist
+				var keep []lkey
+				for _, k := range liveLogs {
+					if k.u != ui {
+						keep = append(keep, k)
+					}
+				}
+				liveLogs = keep
+			}
 		}
+		shadow.Close()
+		os.RemoveAll(shdir)
 		cst := d.ask(fmt.Sprintf("SW %s %s %s", dir, cfg, strings.Join(cops, "!")))
 		gocfg := cfg.cfg()
 		gocfg.SkipNameCheck = true
@@ -312,7 +418,7 @@ func cStackWrites(c *ctx, d *cdrv) error {
 		}()
 		hist["c-statuses:"+cst]++
 		os.RemoveAll(dir)
-		c.emit("cstack_cg", fmt.Sprintf("%s|0|%s", cfg, strings.Join(hops, "!")), cst+"#"+view)
+		c.emit("cstack_cg", fmt.Sprintf("%s|1|%s", cfg, strings.Join(hops, "!")), cst+"#"+view)
 	}
 	if len(hist) > 40 {
 		hist = map[string]int{"(many)": len(hist)}
